@@ -42,6 +42,14 @@ func loadEngineTable(verifDir string) (map[string]map[string]string, error) {
 
 func checkC12(c *Ctx, r *Report) {
 	r.NotDecided = append(r.NotDecided, "that gin, echo, mux, chi and fiber parse the same request bytes into the same values and serialise the same bodies (runtime equivalence of five frameworks)", "response headers such as Content-Type", "user template overrides")
+	// first-match routers (mux, fiber) and tree routers (gin, echo, chi) agree only while routes are registered
+	// in the order they were declared: the routes generator neither sorts nor rewrites what it is given
+	defer func() {
+		ruleFieldFlow(c, r, ffSpec{Clause: "C12.e", Fn: "generator/routes.GetTemplateContext", Owner: c.W.lookupType("generator/routes", "RoutesContext"), Field: "Controllers",
+			Must: []string{"core/pipeline.GleeceFlattenedMetadata.Flat"}, Desc: "the controllers (and their routes) reach the templates in the order the pipeline produced them - a copy, a sort or a regrouping changes which of two overlapping routes a first-match router serves"})
+	}()
+	defer ruleSortInventory(c, r, "C12.e", "core/metadata", "core/pipeline", "generator/routes")
+	defer checkNoInPlaceWritesToInputs(c, r, "C12.e", "core/metadata", "generator/swagen", "generator/routes")
 	r.Assume = append(r.Assume, "templates are compared structurally: resolved context reads, helper calls, partial invocations, Go tokens after renaming the request-context identifiers")
 	tbl, err := loadEngineTable(c.VerifDir)
 	if err != nil {
